@@ -181,6 +181,12 @@ def step (st : St) (toks : List String) : St × String :=
        | some s' => ({ st with s := s' }, "ok")
        | none => (st, "err"))
     | _, _, _, _ => (st, "bad-op")
+  | ["relay", r, k, t, amt, fee] =>
+    match nat? r, nat? k, nat? t, nat? amt, nat? fee with
+    | some r, some k, some t, some amt, some fee =>
+      let (s', res) := relayTx st.s r k t amt fee
+      ({ st with s := s' }, match res with | .ok => "ok" | .err e => "err:" ++ showErr e)
+    | _, _, _, _, _ => (st, "bad-op")
   | ["obs", a] =>
     match nat? a with
     | some a => (st, obs st.s a)
